@@ -152,7 +152,7 @@ func openRTSP(t evid.TB, s *srv.Server, pl *plan, path string) *rtspc.Client {
 		if fe, ok := err.(*rtspc.FramingError); ok {
 			// the play dialogue itself is server output under the same grammar
 			c.Close()
-			atomic.StoreInt32(&sawViolation, 1)
+			sawViolation.Store("tcp", true)
 			evid.Violation(t, "tcp-grammar", map[string]any{"plan": pl, "during": method + " of the play dialogue"}, "tcp (grammar): answering %s of the play dialogue: %v", method, fe)
 		}
 		if err != nil || r.Status != 200 {
@@ -277,7 +277,7 @@ func (e *env) runStress() *verdict {
 			e.publish(sp, true)
 			if i%64 == 63 {
 				// keep the consumer's queue far below the 1000-packet discard threshold
-				waitFor(bound(), func() bool { return e.pubCount-atomic.LoadInt64(&e.tg.passed) < 300 || e.se.broken() })
+				waitFor(bound(e.pl.Transport), func() bool { return e.pubCount-atomic.LoadInt64(&e.tg.passed) < 300 || e.se.broken() })
 			}
 		}
 	}()
@@ -290,7 +290,7 @@ func (e *env) runStress() *verdict {
 				return
 			}
 			if i%e.pl.WaitEvery == 0 {
-				if !waitFor(bound(), func() bool { return e.se.answered(id) || e.se.broken() }) {
+				if !waitFor(bound(e.pl.Transport), func() bool { return e.se.answered(id) || e.se.broken() }) {
 					reqErr.Store(fmt.Sprintf("request CSeq %s was not answered within %v", id, ioBound))
 					return
 				}
@@ -320,7 +320,7 @@ func report(t evid.TB, pl *plan, res *result) {
 	if res.v == nil {
 		return
 	}
-	atomic.StoreInt32(&sawViolation, 1)
+	sawViolation.Store(pl.Transport, true)
 	f := failure{Plan: pl, Verdict: res.v, Fired: res.tg.in.Fired}
 	if res.obs != nil {
 		f.Items = kindsSummary(res.obs.Kinds)
